@@ -3,6 +3,7 @@
 from __future__ import annotations
 
 import ast
+import re
 
 from gv import rules
 from gv.astutil import arg_or_kw
@@ -43,7 +44,7 @@ describe(
         "appended); the pending protocol is ordered (pending before notification, cleared after the file is "
         "closed, create-or-append by presence of the index in the file); every h5py.File is a context manager."
     ),
-    decided=["11.1 writer/reader name tables", "11.2 append bookkeeping", "11.3 pending protocol", "11.4 files closed", "11.1 CSV rows of a variable", "11.6 function descriptions, solution dictionary, lists of strings"],
+    decided=["11.1 writer/reader name tables", "11.2 append bookkeeping", "11.3 pending protocol", "11.4 files closed", "11.1 CSV rows of a variable", "11.6 function descriptions, solution dictionary, lists of strings", "11.7 every name written is relative to the node of the object"],
     not_decided=["value equality through HDF5 / text formats", "text precision"],
     trusted=["h5py dataset/group semantics"],
 )
@@ -1331,6 +1332,29 @@ def check_descriptions(ctx: Ctx) -> None:
     ctx.floor("11.6-solution", 5)
 
 
+def check_node_relative(ctx: Ctx) -> None:
+    """11.7 everything a writer stores for an object lives under the HDF node of that object: a group / dataset name that
+    begins with '/' is an ABSOLUTE path in HDF5, i.e. the root of the file whatever the node (F56: the dictionaries of a
+    solution saved at a node landed at the root, replaced those of the problem saved there, and were not found on reload)."""
+    sites = [("utils/hdf5.py", None, "store_attr_h5data"), ("utils/hdf5.py", None, "store_h5data"), (OP, "OptimizationProblem", "to_hdf"), (DS, "DesignSpace", "to_hdf")]
+    hd = next(iter(c for c in ctx.index.module(HD).classes.values() if "to_file" in c.methods), None)
+    n = 0
+    funcs = [(rel, cn, fn, ctx.index.method(rel, cn, fn) if cn else ctx.index.func(rel, fn)) for rel, cn, fn in sites]
+    if hd is not None:
+        funcs += [(HD, hd.qualname, mn, m) for mn, m in hd.methods.items()]
+    for rel, cn, fn, f in funcs:
+        sv = None
+        for c in walk_body(f):
+            if not (isinstance(c, ast.Call) and last_attr(c) in ("require_group", "create_group", "create_dataset") and c.args):
+                continue
+            sv = sv or SymValues(f)
+            n += 1
+            texts = sv.texts(c.args[0])
+            absolute = [t for t in texts if re.match(r"""^f?['"]/""", t)]
+            ctx.ob("11.7-node-relative", cname(rel, cn, fn) if cn else f"{rel}::{fn}", not absolute, f"`{norm_stmt(c, 70)}` names `{absolute[0] if absolute else ''}`: a name beginning with '/' is resolved from the ROOT of the file, not from the node the object is saved in", node=c, stmt=f"{last_attr(c)}(<name relative to the node>)")
+    ctx.floor("11.7-node-relative", 8)
+
+
 def run(ctx: Ctx) -> None:
     check_reload_order(ctx)
     check_database_tables(ctx)
@@ -1341,6 +1365,7 @@ def run(ctx: Ctx) -> None:
     check_cache_tables(ctx)
     check_problem_tables(ctx)
     check_descriptions(ctx)
+    check_node_relative(ctx)
     h5py_files_in_with(ctx, "11.4-with", ["algos/_hdf_database.py", "algos/design_space.py", "algos/optimization_problem.py", "algos/database.py", "utils/hdf5.py", "algos/opt/mnbi/mnbi.py"], 6)
     ctx.floor("11.2-resize", 2)
     ctx.floor("11.1-problem-description", 6)
@@ -1349,6 +1374,7 @@ def run(ctx: Ctx) -> None:
 # ---------------------------------------------------------------------------
 _DBF = "algos/database.py"
 WITNESSES = [
+    {"name": "mapping-written-at-the-file-root", "file": "utils/hdf5.py", "old": "            new_group = parent.require_group(name)\n", "new": "            new_group = group.require_group(f\"/{name}\")\n", "expect": "11.7"},
     {"name": "one-element-string-array-collapsed", "file": "utils/hdf5.py", "old": "            value = value.tolist()\n", "new": "            value = value[0] if value.size == 1 else value.tolist()\n", "expect": "11.6"},
     {"name": "function-description-lists-a-non-parameter", "file": MF, "old": "        \"special_repr\",\n        \"output_names\",\n    ]", "new": "        \"special_repr\",\n        \"output_names\",\n        \"last_eval\",\n    ]", "expect": "11.6"},
     {"name": "function-dim-not-stored", "file": MF, "old": "        self.dim = dim\n", "new": "        self.dim = 0\n", "expect": "11.6"},
